@@ -534,9 +534,6 @@ func (interp *Interpreter) cfg(root *node, sc *scope, importPath, pkgName string
 						c.typ = sc.getType(nilIdent)
 						continue
 					}
-					if c.typ, err = nodeType(interp, sc, c); err != nil {
-						return false
-					}
 				}
 			}
 
